@@ -115,7 +115,7 @@ CHECKS['C05'] = {
                   'append_vk_binding_annotation: every global / constant buffer with an api slot gets exactly one metadata entry, in the bind group of that slot, carrying the slot location, the same-named descriptor kind, '
                   'the bindless flag and the declared array length as descriptor count (1 if not an array, none if unsized), and nothing else is added; the register(..) / [[vk::binding(..)]] annotation printed for the same declaration carries the same index and group. build_pipeline (src/compile.rs): every stage of the selected pipeline is reported once, in order, with its kind and thread-group size, and the metadata returned is exactly the pipeline description the exporter produced for the module that was exported (narrowed to the selected pipeline, slots assigned with the binding parameters it was given).',
     'level_note': 'Partial: binding entries only (HLSL: metadata + printed annotations; Metal: the argument-buffer entry analyse_bindings records per declaration - same group, slot location, descriptor kind, descriptor count, bindless flag - and that it lies in one of the four argument buffers the generator declares). Descriptor counts: array lengths are assumed to fit 32 bits (a precondition; the closure `len.map(|v| v as u32)` is rewritten to the match it abbreviates, rewrite N7). NOT decided: names (NameMap is opaque), that the printed declaration carries the same array length, '
-                  'MSL [[id(n)]] members and is_used (generate_pipeline monolith; PipelineBindingLayout::finish only by a bounded Kani harness: reflected bind groups stay positional for 3 argument buffers of 0..2 entries), stage entry point NAMES (build_pipeline copies the registry name / a fixed Metal name; that the exporter emits that name is not decided). In build_pipeline every compiler stage (select_pipeline, assign_api_bindings, export_to_hlsl / export_to_msl, the Metal compiler) is an uninterpreted function of its inputs; String + &String is rewritten to a function with the assumed meaning of the operator (rewrite N5); format! of the error printer is assumed to have no precondition. Assumed: registry getters, Vec::from(array), derived Clone = identity. '
+                  'MSL [[id(n)]] members and is_used (generate_pipeline monolith; PipelineBindingLayout::finish only by a bounded Kani harness in the thorough tier: reflected bind groups stay positional for 3 argument buffers of 0..2 entries), stage entry point NAMES (build_pipeline copies the registry name / a fixed Metal name; that the exporter emits that name is not decided). In build_pipeline every compiler stage (select_pipeline, assign_api_bindings, export_to_hlsl / export_to_msl, the Metal compiler) is an uninterpreted function of its inputs; String + &String is rewritten to a function with the assumed meaning of the operator (rewrite N5); format! of the error printer is assumed to have no precondition. Assumed: registry getters, Vec::from(array), derived Clone = identity. '
                   'Preconditions: ids in range, bind group index < 2^28.',
 }
 
